@@ -10,7 +10,7 @@ import tempfile
 import vlib
 from vlib import BUILD, VERIF
 
-FAMILIES = ["G1", "G2", "G3", "G4", "G5", "G6", "G7", "G8"]
+FAMILIES = ["G1", "G2", "G3", "G4", "G5", "G6", "G7", "G8", "G9"]
 
 # environment facts reported by Run.env_facts
 ENV_FAULT, ENV_SLOW, ENV_EXT, ENV_TAKEOVER, ENV_CONN, ENV_UNHEALTHY, ENV_WDROP, ENV_MONITOR, ENV_WCLOSE, ENV_CRASH, ENV_FORCED = \
